@@ -311,6 +311,13 @@ def _gen(rng, tier, lane):
         inst["reads"] = inst["reads"][:9]
         # the column list was derived from all reads: hand it to the solver explicitly, as `phase` does
         inst["explicit_positions"] = True
+    if rng.random() < 0.12 and inst["reads"]:
+        # reads covering a single variant (a legal sorted read set; `phase` drops them before, other callers need not)
+        for rd in inst["reads"]:
+            if rng.random() < 0.3:
+                rd["vars"] = [rng.choice(rd["vars"])]
+        inst["explicit_positions"] = True
+        inst["single_variant_reads"] = True
     return inst
 
 
